@@ -393,6 +393,7 @@ func (x *Exec) havocMods(st *State, ms *ModSet) {
 	if ms.Reads {
 		// the callee may have read input: the ghost tape cursor moves forward
 		x.c.havocTpos(st, x.c.region(st, "$tpos"))
+		x.c.havocRfault(st)
 	}
 	if ms.Writes {
 		x.c.havocOpos(st)
@@ -643,6 +644,8 @@ func (x *Exec) invoke(st *State, cc *ssa.CallCommon, recv Val, args []Val, pos t
 		c.havocRegion(st, "$alloc")
 		x.tapeDeliver(st, na, sOff(p.S), n)
 		errv := c.freshSort("err", "Iface")
+		// ghost: a read error other than io.EOF is remembered (C13)
+		x.noteReadFault(st, errv, pos, false)
 		c.note("trusted: io.Reader.Read obeys its interface contract (0<=n<=len(p), writes only p[:n]) and does not touch the caller's private state")
 		intT := types.Typ[types.Int]
 		return Val{T: resT, Tup: []Val{{T: intT, S: c.fromIdx(intT, n)}, {T: resT.At(1).Type(), S: errv}}}
@@ -674,6 +677,13 @@ func (x *Exec) invoke(st *State, cc *ssa.CallCommon, recv Val, args []Val, pos t
 	case "(error).Error":
 		c.havocRegion(st, "$alloc")
 		return x.results(st, resT, "errstr")
+	case "(io.Seeker).Seek":
+		// trusted interface contract: repositions the stream; reads nothing,
+		// writes nothing and does not touch the caller's private state
+		x.oblige(st, "nil", pos, not(eq(recv.S, "I_nil")), "", nil)
+		c.havocRegion(st, "$alloc")
+		c.note("trusted: io.Seeker.Seek only repositions the stream (no read, no write, caller's state untouched)")
+		return x.results(st, resT, "seek")
 	}
 	c.havocAll(st)
 	c.note("interface method call havocs the whole heap: " + name)
@@ -765,6 +775,29 @@ func (x *Exec) tapeDeliver(st *State, arr, off, n string) {
 	c.note("ghost input tape: fewer than 2^62 input bytes are delivered in total")
 }
 
+// noteReadFault: rfault' = rfault or (err is neither nil nor io.EOF [nor
+// io.ErrUnexpectedEOF for io.ReadFull]).
+func (x *Exec) noteReadFault(st *State, errv string, pos token.Pos, full bool) {
+	c := x.c
+	cond := []string{not(eq(errv, "I_nil"))}
+	if iop := x.p.ssaProg.ImportedPackage("io"); iop != nil {
+		names := []string{"EOF"}
+		if full {
+			names = append(names, "ErrUnexpectedEOF")
+		}
+		for _, nm := range names {
+			if g := iop.Var(nm); g != nil {
+				sv := x.load(st, x.globalPtr(g), pos)
+				if sv.S != "" {
+					cond = append(cond, not(eq(errv, sv.S)))
+				}
+			}
+		}
+	}
+	st.cells["$rfault"] = Val{S: c.def("rf", "Bool", or(c.region(st, "$rfault"), and(cond...)))}
+	c.note("ghost: rfault() records that a read from an underlying io.Reader failed with an error other than io.EOF")
+}
+
 type intrinsic func(x *Exec, st *State, fn *ssa.Function, args []Val, pos token.Pos, resT *types.Tuple) Val
 
 var intrinsics = map[string]intrinsic{}
@@ -789,6 +822,7 @@ func init() {
 		x.tapeDeliver(st, na, sOff(p.S), n)
 		errv := c.freshSort("err", "Iface")
 		c.assume(eq(eq(errv, "I_nil"), eq(n, sLen(p.S))))
+		x.noteReadFault(st, errv, pos, true)
 		c.note("trusted: io.ReadFull(r, buf) returns 0<=n<=len(buf), err==nil <=> n==len(buf), writes only buf[:n]; the reader does not touch the caller's private state")
 		intT := types.Typ[types.Int]
 		return Val{T: resT, Tup: []Val{{T: intT, S: c.fromIdx(intT, n)}, {T: resT.At(1).Type(), S: errv}}}
